@@ -43,6 +43,20 @@ theorem sortEx_cycle_iff (g : Graph) (allow : Bool) (hwf : WF g) (hr : Resolved 
       exact this.1.acyc a (this.2.2 rfl a hak) a Relation.ReflTransGen.refl ha
     · exact ⟨c.item, c.path, rfl⟩
 
+/-- the item carried by a reported `CycleError` lies on a hard ∪ control cycle -/
+theorem sortEx_cycle_item (g : Graph) (allow : Bool) (hr : Resolved g allow) (i : Nat)
+    (p : List Nat) (h : sortEx g allow = .cycle i p) :
+    Relation.TransGen (fun a b => Hard g a b ∨ Ctrl g a b) i i := by
+  rw [sortEx_resolved hr] at h
+  rcases ht : topLoop g (g.length + 1) g.keys {} with ⟨st, _ | c⟩
+  · rw [ht] at h; cases h
+  · obtain ⟨k, _, s, _, hs⟩ := topLoop_some (g := g) (fuel := g.length + 1) (fun _ => True)
+      (fun _ _ _ => trivial) g.keys {} c trivial (by rw [ht])
+    have := visit_err_item g _ [] k false s c (by intro x hx; cases hx) hs
+    rw [ht] at h
+    cases h
+    exact this
+
 theorem sortEx_soft (g : Graph) (allow : Bool) (hwf : WF g) (hr : Resolved g allow)
     (hac : ¬ Cyclic (fun a b => Hard g a b ∨ Ctrl g a b ∨ Weak g a b)) :
     ∃ o, sortEx g allow = .ok o ∧ ∀ a b, Weak g a b → pos o b < pos o a := by
